@@ -148,6 +148,8 @@ fn check_lim_interleavings(cfg: &LimCfg, tier: Tier, rep: &mut Report) {
     let mut found: Option<(String, Vec<usize>)> = None;
     let bounds: Vec<Option<usize>> = tier.pick(vec![Some(0), Some(1), Some(2)], vec![Some(2), None]);
     let mut done = None;
+    // wall-clock cap per configuration; a capped bound is reported as such
+    ilv::set_deadline(Some(std::time::Instant::now() + std::time::Duration::from_secs(tier.pick(20, 15))));
     for b in bounds {
         let stats = ilv::explore(&spec, b, tier.pick(100_000, 2_000_000), |x, shared, choices| {
             outcomes.insert(shared.limit());
@@ -163,7 +165,7 @@ fn check_lim_interleavings(cfg: &LimCfg, tier: Tier, rep: &mut Report) {
         });
         total += stats.schedules;
         if stats.capped {
-            rep.caps.push(format!("{}: schedule cap at bound {:?}", cfg.label(), b));
+            rep.caps.push(format!("{}: schedule/time cap hit at preemption bound {} (bounds below it were completed)", cfg.label(), b.map_or("unbounded".to_string(), |n| n.to_string())));
             break;
         }
         done = Some(b.map_or("unbounded".to_string(), |n| n.to_string()));
